@@ -8,6 +8,8 @@ mod props;
 mod refcbor;
 mod refmodel;
 mod reqcheck;
+mod respcheck;
+mod spaces;
 mod spec;
 mod subject;
 
